@@ -223,60 +223,29 @@ func checkC09(p *Program, r *Report) {
 	wb, rb := bound(writer, wStore.Block(), wtb), bound(reader, rTest.Block(), rtb)
 	r.Add("C09.agree", FnName(writer)+" / "+FnName(reader), "writer and reader iterate over the same hash-function range", wStore.Pos(), wb != nil && rb != nil && sameTerm(wb, rb),
 		fmt.Sprintf("writer: %v; reader: %v", wb, rb))
-	// outpoint serialisers: functions that fill a local byte array and pass it to writer / reader
+	// outpoint serialisers: functions that build the 36 bytes and pass them to writer / reader
 	type bufDesc struct {
 		fn   *ssa.Function
 		desc string
 	}
 	var descs []bufDesc
 	for _, fn := range pkgFuncs(p, "bloom") {
+		if fn == writer || fn == reader {
+			continue
+		}
 		for _, b := range fn.Blocks {
 			for _, in := range b.Instrs {
 				c, ok := in.(*ssa.Call)
 				if !ok || (c.Call.StaticCallee() != writer && c.Call.StaticCallee() != reader) {
 					continue
 				}
-				sl, ok := c.Call.Args[len(c.Call.Args)-1].(*ssa.Slice)
-				if !ok {
-					continue
+				arg := c.Call.Args[len(c.Call.Args)-1]
+				if _, isParam := arg.(*ssa.Parameter); isParam {
+					continue // plain forwarding of the caller's item (Add, Matches, …)
 				}
-				al, ok := sl.X.(*ssa.Alloc)
-				if !ok {
-					continue
+				if d, ok := serialDesc(p, fn, arg, 0); ok {
+					descs = append(descs, bufDesc{fn, d})
 				}
-				at, ok := derefType(al.Type()).Underlying().(*types.Array)
-				if !ok {
-					continue
-				}
-				tb := NewTermBuilder(p, fn)
-				var parts []string
-				for _, ref := range *al.Referrers() {
-					s2, ok := ref.(*ssa.Slice)
-					if !ok || s2 == sl {
-						continue
-					}
-					off := int64(0)
-					if s2.Low != nil {
-						off, _ = constInt(s2.Low)
-					}
-					for _, u2 := range *s2.Referrers() {
-						cc, ok := u2.(*ssa.Call)
-						if !ok {
-							continue
-						}
-						if isBuiltin(&cc.Call, "copy") && cc.Call.Args[0] == ssa.Value(s2) {
-							parts = append(parts, fmt.Sprintf("@%d copy %s", off, tb.Term(cc.Call.Args[1]).String()))
-						} else if cal := cc.Call.StaticCallee(); cal != nil && strings.Contains(cal.String(), "PutUint32") {
-							order := "big-endian"
-							if strings.Contains(cal.String(), "littleEndian") {
-								order = "little-endian"
-							}
-							parts = append(parts, fmt.Sprintf("@%d %s uint32 %s", off, order, tb.Term(lastArg(cc)).String()))
-						}
-					}
-				}
-				sortStrings(parts)
-				descs = append(descs, bufDesc{fn, fmt.Sprintf("[%d]byte{%s}", at.Len(), strings.Join(parts, "; "))})
 			}
 		}
 	}
@@ -289,7 +258,7 @@ func checkC09(p *Program, r *Report) {
 				same = false
 			}
 		}
-		want := strings.HasPrefix(descs[0].desc, "[36]byte{@0 copy ") && strings.Contains(descs[0].desc, "@32 little-endian uint32 ") && strings.Contains(descs[0].desc, ".Hash") && strings.Contains(descs[0].desc, ".Index")
+		want := strings.HasPrefix(descs[0].desc, "36 bytes{@0 bytes ") && strings.Contains(descs[0].desc, "@32 little-endian uint32 ") && strings.Contains(descs[0].desc, ".Hash") && strings.Contains(descs[0].desc, ".Index")
 		r.Add("C09.agree", FnName(descs[0].fn)+" / "+FnName(descs[1].fn), "outpoints are serialised identically for insertion and lookup: txid ‖ little-endian index", descs[0].fn.Pos(), same && want, descs[0].desc+" vs "+descs[1].desc)
 	}
 	r.Floor("C09.agree", 4)
@@ -635,4 +604,215 @@ func foreignDeterminants(p *Program, fn *ssa.Function, cond ssa.Value) []string 
 	}
 	walk(cond)
 	return bad
+}
+
+// serialDesc describes a fixed-layout byte serialisation built in fn and denoted by v:
+// "N bytes{@off bytes <term>; @off little-endian uint32 <term>; …}".  Recognised constructions: a local array
+// filled by copy / binary.*.PutUint32 / single-byte stores of shifted values; append chains with
+// binary.*.AppendUint32; and a call of an in-repo helper that builds the bytes from its parameters (described
+// in the helper, with the parameters renamed to the caller's arguments).
+func serialDesc(p *Program, fn *ssa.Function, v ssa.Value, depth int) (string, bool) {
+	if depth > 2 {
+		return "", false
+	}
+	tb := NewTermBuilder(p, fn)
+	type part struct {
+		off  int64
+		text string
+		n    int64
+	}
+	var parts []part
+	total := int64(-1)
+	// unwrap slices of a local array / loads
+	var fromArray func(al *ssa.Alloc) bool
+	fromArray = func(al *ssa.Alloc) bool {
+		at, ok := derefType(al.Type()).Underlying().(*types.Array)
+		if !ok {
+			return false
+		}
+		total = at.Len()
+		byteStores := map[int64]ssa.Value{}
+		for _, ref := range *al.Referrers() {
+			switch x := ref.(type) {
+			case *ssa.Store:
+				if x.Addr == ssa.Value(al) {
+					// whole-array value from a helper call
+					if hc, ok := x.Val.(*ssa.Call); ok {
+						if d, ok := helperDesc(p, fn, hc, depth); ok {
+							parts = append(parts, part{-1, d, 0})
+							continue
+						}
+					}
+					return false
+				}
+			case *ssa.Slice:
+				off := int64(0)
+				if x.Low != nil {
+					k, isK := constInt(x.Low)
+					if !isK {
+						if len(*x.Referrers()) > 0 && sliceWritten(x) {
+							return false
+						}
+						continue
+					}
+					off = k
+				}
+				for _, u2 := range *x.Referrers() {
+					cc, ok := u2.(*ssa.Call)
+					if !ok {
+						continue
+					}
+					if isBuiltin(&cc.Call, "copy") && cc.Call.Args[0] == ssa.Value(x) {
+						parts = append(parts, part{off, "bytes " + tb.Term(cc.Call.Args[1]).String(), -1})
+					} else if cal := cc.Call.StaticCallee(); cal != nil && strings.Contains(cal.String(), "PutUint32") && cc.Call.Args[len(cc.Call.Args)-2] == ssa.Value(x) {
+						order := "big-endian"
+						if strings.Contains(cal.String(), "littleEndian") {
+							order = "little-endian"
+						}
+						parts = append(parts, part{off, order + " uint32 " + tb.Term(lastArg(cc)).String(), 4})
+					}
+				}
+			case *ssa.IndexAddr:
+				k, isK := constInt(x.Index)
+				if !isK {
+					if l := NewLinCtx(p, fn).Lin(x.Index); l.isConst() {
+						k, isK = l.c, true
+					}
+				}
+				for _, u2 := range *x.Referrers() {
+					if st, ok := u2.(*ssa.Store); ok && st.Addr == ssa.Value(x) {
+						if !isK {
+							return false
+						}
+						byteStores[k] = st.Val
+					}
+				}
+			}
+		}
+		// four consecutive single-byte stores byte(x), byte(x>>8), byte(x>>16), byte(x>>24) are a little-endian uint32
+		for k, v0 := range byteStores {
+			base := stripIntConv(v0)
+			okLE := true
+			for j := int64(1); j < 4; j++ {
+				vj, ok := byteStores[k+j]
+				if !ok {
+					okLE = false
+					break
+				}
+				sh, ok := stripIntConv(vj).(*ssa.BinOp)
+				if !ok || sh.Op != token.SHR || sh.X != base {
+					okLE = false
+					break
+				}
+				if c, isC := constInt(sh.Y); !isC || c != 8*j {
+					okLE = false
+				}
+			}
+			if _, isShift := base.(*ssa.BinOp); okLE && !isShift {
+				parts = append(parts, part{k, "little-endian uint32 " + tb.Term(base).String(), 4})
+				for j := int64(0); j < 4; j++ {
+					delete(byteStores, k+j)
+				}
+			}
+		}
+		if len(byteStores) > 0 {
+			return false
+		}
+		return true
+	}
+	var walk func(v ssa.Value) bool
+	walk = func(v ssa.Value) bool {
+		switch x := v.(type) {
+		case *ssa.Slice:
+			if x.Low != nil || x.High != nil {
+				if k, isK := constInt(x.Low); x.Low != nil && (!isK || k != 0) {
+					return false
+				}
+			}
+			if al, ok := x.X.(*ssa.Alloc); ok {
+				return fromArray(al)
+			}
+			return walk(x.X)
+		case *ssa.Call:
+			if d, ok := helperDesc(p, fn, x, depth); ok {
+				parts = append(parts, part{-1, d, 0})
+				return true
+			}
+			// append chain ending in AppendUint32
+			if cal := x.Call.StaticCallee(); cal != nil && strings.Contains(cal.String(), "AppendUint32") {
+				order := "big-endian"
+				if strings.Contains(cal.String(), "littleEndian") {
+					order = "little-endian"
+				}
+				inner := x.Call.Args[len(x.Call.Args)-2]
+				ap, ok := inner.(*ssa.Call)
+				if !ok || !isBuiltin(&ap.Call, "append") {
+					return false
+				}
+				lcx := NewLinCtx(p, fn)
+				l0 := lcx.LenLin(ap.Call.Args[0])
+				l1 := lcx.LenLin(ap.Call.Args[1])
+				if !l0.isConst() || l0.c != 0 || !l1.isConst() {
+					return false
+				}
+				parts = append(parts, part{0, "bytes " + tb.Term(ap.Call.Args[1]).String(), l1.c})
+				parts = append(parts, part{l1.c, order + " uint32 " + tb.Term(lastArg(x)).String(), 4})
+				total = l1.c + 4
+				return true
+			}
+		case *ssa.UnOp:
+			if al, ok := x.X.(*ssa.Alloc); ok && x.Op == token.MUL {
+				return fromArray(al)
+			}
+		}
+		return false
+	}
+	if !walk(v) {
+		return "", false
+	}
+	if len(parts) == 1 && parts[0].off == -1 {
+		return parts[0].text, true
+	}
+	var texts []string
+	for _, pt := range parts {
+		if pt.off == -1 {
+			return "", false
+		}
+		texts = append(texts, fmt.Sprintf("@%d %s", pt.off, pt.text))
+	}
+	sortStrings(texts)
+	return fmt.Sprintf("%d bytes{%s}", total, strings.Join(texts, "; ")), true
+}
+
+// helperDesc: the bytes come from an in-repo helper; describe what the helper returns, in the caller's terms.
+func helperDesc(p *Program, fn *ssa.Function, hc *ssa.Call, depth int) (string, bool) {
+	cal := hc.Call.StaticCallee()
+	if cal == nil || !p.InRepo(cal) || len(cal.Blocks) == 0 {
+		return "", false
+	}
+	rets := returnsOf(cal)
+	if len(rets) != 1 || len(rets[0].Results) != 1 {
+		return "", false
+	}
+	d, ok := serialDesc(p, cal, rets[0].Results[0], depth+1)
+	if !ok {
+		return "", false
+	}
+	// the helper's parameters, as the term builder prints them (P0, P1, … / R for a receiver), stand for the caller's arguments
+	tb := NewTermBuilder(p, fn)
+	for i := len(cal.Params) - 1; i >= 0; i-- {
+		if i < len(hc.Call.Args) {
+			name := fmt.Sprintf("P%d", i)
+			if cal.Signature.Recv() != nil {
+				if i == 0 {
+					name = "R"
+				} else {
+					name = fmt.Sprintf("P%d", i-1)
+				}
+			}
+			d = strings.ReplaceAll(d, name+".", "‹"+tb.Term(hc.Call.Args[i]).String()+"›.")
+			d = strings.ReplaceAll(d, name+")", "‹"+tb.Term(hc.Call.Args[i]).String()+"›)")
+		}
+	}
+	return d, true
 }
